@@ -6,7 +6,7 @@ use crate::gen::*;
 use crate::json::*;
 use crate::oracle::{self, Quirks};
 use crate::src::Src;
-use crate::vq::{V1, V2};
+use crate::vq::{V1, V2, V3};
 use jsonpath_rust::JsonPath;
 use serde_json::{json, Value};
 
@@ -142,6 +142,67 @@ fn random_diff(src: &mut Src, obs: &mut Obs) -> Res {
     Ok(())
 }
 
+fn run_v3(v: &V3, q: &str) -> Result<Rows, String> {
+    match guarded(|| v.query_with_path(q)) {
+        Ok(Ok(r)) => Ok(r.into_iter().map(|x| (x.clone().path(), x.val().to_j())).collect()),
+        Ok(Err(e)) => Err(format!("Err({})", e.to_string().lines().next().unwrap_or(""))),
+        Err(p) => Err(format!("panic: {}", p)),
+    }
+}
+
+/// the trait leaves the enclosing quotes of a key to the implementation of `get`: a type that strips
+/// exactly one enclosing pair (V3) is as faithful as one that strips greedily like `Value` (V1).  The two
+/// readings name the same member unless the name ends with a quote character, so everywhere else the
+/// results on V3 must equal those on `Value` - names that need escapes, start with a quote or are spelled
+/// with free escapes included (what the engine does with the escapes cancels in the comparison).
+fn random_one_pair_get(src: &mut Src, obs: &mut Obs) -> Res {
+    let mut cfg = cfg15();
+    cfg.special_keys = true;
+    cfg.free_escapes = src.bool();
+    let doc = gen_doc(src, &cfg).sorted();
+    let q = gen_query(src, &doc, &cfg);
+    let mut ends_with_quote = false;
+    let mut starts_with_quote = false;
+    let mut escaped = false;
+    for_each_str(&q, &mut |s, is_name| {
+        if is_name {
+            ends_with_quote |= s.val.ends_with('\'') || s.val.ends_with('"');
+            starts_with_quote |= s.val.starts_with('\'') || s.val.starts_with('"');
+            escaped |= s.has_escape();
+        }
+    });
+    if ends_with_quote {
+        obs.label("name-ends-with-a-quote(readings differ, not judged)");
+        return Ok(());
+    }
+    let text = render_with_blanks(src, &q, false);
+    let v = doc.to_value();
+    obs.eval(2);
+    let rv = run_value(&v, &text);
+    let r3 = run_v3(&V3::from_j(&doc), &text);
+    if starts_with_quote {
+        obs.label("name-starts-with-a-quote");
+    }
+    if escaped {
+        obs.label("name-spelled-with-escape");
+    }
+    if escaped || starts_with_quote {
+        obs.nontrivial(&(text.as_str(), doc.text()), || json!({"query": text, "doc": doc.to_value()}));
+    }
+    let same = match (&rv, &r3) {
+        (Ok(a), Ok(b)) => rows_equal(a, b),
+        (Err(a), Err(b)) => a.starts_with("Err") && b.starts_with("Err"),
+        _ => false,
+    };
+    if !same {
+        return Err(Failure::new(
+            "the same query gives different results on serde_json::Value and on a faithful Queryable type whose `get` strips exactly one pair of enclosing quotes",
+            json!({"query": text, "doc": doc.to_value(), "on_value": show(&rv), "on_other_type": show(&r3)}),
+        ));
+    }
+    Ok(())
+}
+
 fn shuffle(src: &mut Src, j: &J) -> J {
     match j {
         J::Arr(a) => J::Arr(a.iter().map(|x| shuffle(src, x)).collect()),
@@ -160,6 +221,11 @@ fn shuffle(src: &mut Src, j: &J) -> J {
 
 /// a member order other than the sorted one: the order of the view decides the order of the result
 fn random_unsorted(src: &mut Src, obs: &mut Obs) -> Res {
+    unsorted_case(src, obs, ID, false)
+}
+
+/// shared with C02 (`id` selects the list of open findings the attribution may use)
+pub fn unsorted_case(src: &mut Src, obs: &mut Obs, id: &str, order_only: bool) -> Res {
     let mut cfg = cfg15();
     cfg.max_width = 5;
     let sorted = gen_doc(src, &cfg).sorted();
@@ -181,10 +247,10 @@ fn random_unsorted(src: &mut Src, obs: &mut Obs) -> Res {
     }
     // (a) the nodes, in order, are those of the reference semantics run on this member order
     let case = || json!({"query": text, "doc(insertion order)": format!("{:?}", doc)});
-    match attribute(ID, &locs, |k| oracle::eval(&q, &doc, k).iter().map(|n| Some(n.loc())).collect::<Vec<_>>()) {
+    match attribute(id, &locs, |k| oracle::eval(&q, &doc, k).iter().map(|n| Some(n.loc())).collect::<Vec<_>>()) {
         Attribution::Strict => {}
         Attribution::Known(bits) => {
-            for id in finding_ids_for_bits(ID, bits) {
+            for id in finding_ids_for_bits(id, bits) {
                 obs.known(&id, || case());
             }
         }
@@ -194,6 +260,9 @@ fn random_unsorted(src: &mut Src, obs: &mut Obs) -> Res {
             c["expected_order"] = json!(oracle::eval(&q, &doc, &Quirks::strict()).iter().map(|n| normalized_path(&n.loc())).collect::<Vec<_>>());
             return Err(Failure::new("on a Queryable type whose members are not in sorted order the result is not the RFC nodelist in that view's order", c));
         }
+    }
+    if order_only {
+        return Ok(());
     }
     // (b) as a multiset of (path, value) it equals the result on the equivalent serde_json::Value
     let v = sorted.to_value();
@@ -296,16 +365,17 @@ pub fn prop() -> Prop {
     Prop {
         id: ID,
         rule: "the document-guided query generator (all selectors, filters, comparisons, RFC functions incl. regex; extension functions excluded: they belong to the data type) on documents viewed through serde_json::Value and two harness types implementing Queryable: \
-               V1 (members in insertion order, separate Int/Float variants answering only to as_i64 resp. as_f64, derived PartialEq) and V2 (one f64 number variant, BTreeMap members, as_i64 always None). \
+               V1 (members in insertion order, separate Int/Float variants answering only to as_i64 resp. as_f64, derived PartialEq) and V2 (one f64 number variant, BTreeMap members, as_i64 always None); V3 is V1 with a `get` that strips exactly one pair of enclosing quotes (names that may need escapes, except those ending with a quote character where the two readings of the trait's contract differ). \
                Same member order: paths and values must agree position by position. Shuffled member order (V1): locations (by address) must equal the reference evaluator run on that order, and the multiset of paths must equal the Value run. \
                Non-trivial: non-empty result and the query has a filter, a wildcard or a nested query (and, for the shuffled family, the order really differs from sorted). Distinct by (query text, document).",
         assumptions: vec![
-            "`get` of the harness types strips the enclosing quotes of the key the way the reference implementation for Value does; member names are plain (no name needs an escape)",
+            "`get` of V1 and V2 strips the enclosing quotes of the key the way the reference implementation for Value does (greedily); V3 strips exactly one pair",
             "differential oracle: deviations shared by all data types cancel; the shuffled family uses the reference evaluator with the open ordering finding K1 attributed",
         ],
         subs: vec![
             Sub { name: "random-diff", kind: Kind::Random { f: random_diff, quick: 240_000, thorough: 4_800_000, len: 500 } },
             Sub { name: "random-object-equality", kind: Kind::Random { f: random_object_equality, quick: 64_000, thorough: 1_280_000, len: 300 } },
+            Sub { name: "random-one-pair-get", kind: Kind::Random { f: random_one_pair_get, quick: 120_000, thorough: 2_400_000, len: 500 } },
             Sub { name: "random-unsorted", kind: Kind::Random { f: random_unsorted, quick: 160_000, thorough: 3_200_000, len: 500 } },
         ],
         direct: Some(direct),
